@@ -141,7 +141,8 @@ def accept(wd, events, name):
 
 
 NASTY = {
-    "Python": [("trunc.py", b"def f(a):\n    return a\n\ndef g("), ("latin.py", "# r\xe9sum\xe9\ndef f():\n    return 'caf\xe9'\n".encode("latin-1")), ("ok.py", b"def f():\n    pass\n")],
+    "Python": [("trunc.py", b"def f(a):\n    return a\n\ndef g("), ("latin.py", "# r\xe9sum\xe9\ndef f():\n    return 'caf\xe9'\n".encode("latin-1")), ("ok.py", b"def f():\n    pass\n"),
+               ("high.py", b"# " + bytes(range(0x80, 0x100)) + b"\ndef f():\n    return 1\n")],
     "JavaScript": [("arrow.js", b"const f = (cb = () => 0) => {\n  return cb();\n};\n"), ("latin.js", "// r\xe9sum\xe9\nfunction f() {\n  return 1;\n}\n".encode("latin-1"))],
     "C": [("deep.c", ("int f(void) {\n" + "{" * 60 + "\n").encode()), ("latin.c", "/* \xe9 */\nint f(void) {\n  return 1;\n}\n".encode("latin-1"))],
     "Java": [("Un.java", b"class K { void f(int a) throws { new R() { void g() {")],
